@@ -165,6 +165,40 @@ func c20GenKV(r *rng, n int) []c20KV {
 	return out
 }
 
+// c20GenTwins: one family of keys whose subtrees coincide
+func c20GenTwins(r *rng) []c20KV {
+	var out []c20KV
+	prefix := pick(r, [][]byte{{0x77}, {0x77, 0x01}, {0x10, 0x22}, {}, {0xab, 0xcd, 0xef, 0x01}})
+	val := pick(r, [][]byte{[]byte("twin"), {7}, []byte("v")})
+	x := byte(r.intn(256))
+	var variants []byte
+	switch r.intn(3) {
+	case 0: // differ in the high nibble
+		variants = []byte{x, x ^ 0x10, x ^ 0x30}
+	case 1: // differ in the low nibble
+		variants = []byte{x, x ^ 0x01, x ^ 0x03}
+	default:
+		variants = []byte{x, x ^ 0x40}
+	}
+	variants = variants[:2+r.intn(len(variants)-1)]
+	var tails [][]byte
+	switch r.intn(3) {
+	case 0: // extension + leaf below the differing nibble
+		tails = [][]byte{{0x31, 0x32}}
+	case 1: // a branch subtree below it
+		tails = [][]byte{{0x31, 0x40}, {0x31, 0x50}, {0x32}}
+	default:
+		tails = [][]byte{{0x05}, {0x05, 0x06}}
+	}
+	for _, v := range variants {
+		for _, t := range tails {
+			k := append(append(append([]byte{}, prefix...), v), t...)
+			out = append(out, c20KV{k, val})
+		}
+	}
+	return out
+}
+
 func c20NewSource(r *rng, height int, perBlock int) *c20Source {
 	tb := &c20TB{}
 	bc, acc := chain.NewSingleWithOptions(tb, &chain.Options{Logger: zap.NewNop(), BlockchainConfigHook: c20Cfg})
@@ -188,6 +222,13 @@ func c20NewSource(r *rng, height int, perBlock int) *c20Source {
 			for j := 0; j < 1+r.intn(3); j++ {
 				i := r.intn(len(live))
 				emit.AppCall(w.BinWriter, s.ctr.Hash, "del", callflag.All, live[i].k)
+			}
+		}
+		// shared INTERIOR nodes: groups of keys that differ in exactly one nibble and have identical tails and values
+		// (shared extension+leaf, shared branch subtrees), at several depths; own PRNG stream, never deleted
+		if bc.BlockHeight() < 7 || fr.chance(25) {
+			for _, kv := range c20GenTwins(fr) {
+				emit.AppCall(w.BinWriter, s.ctr.Hash, "put", callflag.All, kv.k, kv.v)
 			}
 		}
 		if w.Len() == 0 {
